@@ -286,6 +286,12 @@ def occ_has_text(o):
     c, n = o
     base = AND(c, NOT(n.empty))
     return OR(*[AND(base, t.present) for t in n.content if isinstance(t, Text)])
+def zsum(xs):
+    """integer sum that prints as valid SMT-LIB for 0 or 1 summands too"""
+    xs = list(xs)
+    if not xs: return z3.IntVal(0)
+    return xs[0] if len(xs) == 1 else z3.Sum(xs)
+
 def count_ge(conds, k):
     """at least k of conds hold"""
     conds = [c for c in conds if c is not False]
@@ -294,7 +300,7 @@ def count_ge(conds, k):
     nt = sum(1 for c in conds if c is True)
     if nt >= k: return True
     sym = [c for c in conds if c is not True]
-    return z3.PbGe([(c, 1) for c in sym], k - nt)
+    return zsum([z3.If(c, 1, 0) for c in sym]) >= (k - nt)          # (an integer sum, not z3's pseudo-boolean extension, so that cvc5 can read the query)
 
 def count_eq(conds, k):
     """exactly k of conds hold (conds may be python bools or formulas)"""
@@ -303,7 +309,7 @@ def count_eq(conds, k):
     k = k - nt
     if k < 0 or k > len(sym): return False
     if not sym: return k == 0
-    return z3.PbEq([(c, 1) for c in sym], k)
+    return zsum([z3.If(c, 1, 0) for c in sym]) == k
 
 class Expect:
     """what the documents determine for one element position, as formulas over the skeleton's features"""
